@@ -129,6 +129,7 @@ CHECKS = {
             {"pkg": "thriftw", "run": "^TestC06Thrift(KnownProbes|TruncationSweep)$", "quick": 1, "thorough": 1, "rapid": False},
             {"pkg": "core", "run": "^TestC06Session$", "quick": 800, "thorough": 40000, "shards_thorough": 8},
             {"pkg": "core", "run": "^TestC06WebsocketControl$", "quick": 300, "thorough": 10000, "shards_thorough": 4},
+            {"pkg": "core", "run": "^TestC06AcceptLoop$", "quick": 150, "thorough": 5000, "shards_thorough": 4},
             {"pkg": "pure", "run": "^TestC06BodyCodecAlloc$", "quick": 1500, "thorough": 60000, "shards_thorough": 4},
             {"pkg": "wire", "run": "^$", "fuzz": "^FuzzUnpackRaw$", "fuzztime": "90s", "fuzzworkers": 4, "only": "thorough", "rapid": False, "timeout_thorough": 900},
             {"pkg": "wire", "run": "^$", "fuzz": "^FuzzUnpackJSON$", "fuzztime": "90s", "fuzzworkers": 4, "only": "thorough", "rapid": False, "timeout_thorough": 900},
